@@ -859,6 +859,81 @@ def part_addr(chk, c2m, d, quick):
     return nprobes, findings
 
 
+# ------------------------------------------------------------------ V: several aggregate values alive in one full expression
+def agg_focus(text, pid):
+    """the program with the probe function of line id `v<pid>_<n>` only"""
+    m = re.match(r'v(\d+)_', pid)
+    if not m:
+        return text
+    keep, skip = [], False
+    for l in text.split('\n'):
+        f = re.match(r'static (?:void q|.* h)(\d+) \(', l)
+        if f and not l.startswith('static u64') and re.match(r'static (void q|(struct|union) A\d+ h)\d+ \(', l):
+            skip = f.group(1) != m.group(1) and l.startswith('static void q')
+            if not l.startswith('static void q'):
+                if f.group(1) != m.group(1):
+                    continue
+        if re.match(r'  q(\d+) \(', l) and re.match(r'  q(\d+) \(', l).group(1) != m.group(1):
+            continue
+        if skip:
+            if l == '}':
+                skip = False
+            continue
+        keep.append(l)
+    return '\n'.join(keep)
+
+
+def part_agg(chk, c2m, d, quick):
+    import gen_c07_agg as VG
+    n = 6 if quick else 120
+    nprobes = 0
+    findings = []
+    for i in range(n):
+        rng = chk.rng('agg%d' % i)
+        text, feats, total = VG.generate(rng, nprobes=36)
+        src = os.path.join(d, 'agg.c')
+        open(src, 'w').write(text)
+        ref, why = reference_run(src, d, 'agg', False)
+        if ref is None or ref[0] != 0 or len(ref[1].split('\n')) - 1 != total:
+            raise vlib.BuildError('gen_c07_agg: program %d is not a valid test (%s)' % (i, why or 'wrong number of output lines'))
+        res = c2m_runs(c2m, src, d, False)
+        chk.count('V:' + hashlib.sha1(text.encode()).hexdigest(), nontrivial=True, n=total * len(ENGINES))
+        nprobes += total
+        for f in feats:
+            chk.dist('V_features', f)
+        if i == 0:
+            chk.sample('aggregate-expression program (some probe lines): ' + ' | '.join(l.strip() for l in text.split('\n') if l.startswith('  printf'))[:700])
+        bad = addr_bad_lines(ref[1], res)
+        if bad:
+            findings.append((i, text, bad, ref))
+    seen = set()
+    for i, text, bad, ref in findings[:3]:
+        for pid in sorted(bad)[:2]:
+            eng = bad[pid][0][0]
+            small = agg_focus(text, pid)
+            src = os.path.join(d, 'aggf.c')
+            open(src, 'w').write(small)
+            r2, why = reference_run(src, d, 'aggf', False)
+            if r2 is None or not prog_disagreements(r2, c2m_runs(c2m, src, d, False, [x for x in ENGINES if ename(x) == eng])):
+                small = text
+            small = shrink_program(c2m, small, d, False, eng)
+            sig = 'agg:' + hashlib.sha1(small.encode()).hexdigest()[:12]
+            if sig in seen:
+                continue
+            seen.add(sig)
+            open(src, 'w').write(small)
+            r3, _ = reference_run(src, d, 'aggf', False)
+            r4 = c2m_runs(c2m, src, d, False, [x for x in ENGINES if ename(x) == eng])
+            stmt = [l.strip() for l in small.split('\n') if l.startswith('  ') and re.search(r'\b(mk|mix|inc|pick|id|cvt|fp|fpm)_', l)]
+            chk.finding(sig, dict(kind='prog', program=small, original=text, use_ext=False, engines=[b[0] for b in bad[pid]],
+                                  what=['%s: c2m prints `%s`' % b for b in bad[pid]], gcc=list(r3 or ref)),
+                        'aggregate values in one full expression, `%s`: c2m %s prints `%s`, gcc `%s`'
+                        % (' '.join(stmt)[:300], ','.join(b[0] for b in bad[pid]), (r4.get(eng, (0, ''))[1]).strip().replace('\n', ' ')[:100],
+                           (r3[1] if r3 else '').strip().replace('\n', ' ')[:100]))
+    chk.dist('V_programs', 'valid', n)
+    return nprobes, findings
+
+
 # ------------------------------------------------------------------ X: aggregates by value across the compiler boundary
 def _tup(x):
     return tuple(_tup(y) for y in x) if isinstance(x, list) else x
@@ -1095,7 +1170,7 @@ def run(chk):
                                 'struct copies, calls, the engines']
     with Scratch() as d:
         c2m, model = tools(d)
-        parts = os.environ.get('C07_PARTS', 'ABFPX')      # development switch; the registered command runs everything
+        parts = os.environ.get('C07_PARTS', 'ABFPVX')      # development switch; the registered command runs everything
         n1 = n2 = n3 = n4 = n5 = n6 = 0
         model_breaks = []
         bf_tie = []
@@ -1110,6 +1185,8 @@ def run(chk):
             n3, bad_progs = part_programs(chk, c2m, d, quick)
         if 'P' in parts:
             n7, bad_addr = part_addr(chk, c2m, d, quick)
+        if 'V' in parts:
+            n8, bad_agg = part_agg(chk, c2m, d, quick)
         if 'X' in parts:
             n5, bad_abi = part_abi(chk, c2m, d, quick)
         if 'C' in parts or (not quick and 'C07_PARTS' not in os.environ):
@@ -1131,6 +1208,10 @@ def run(chk):
                        'pointer arithmetic inside the innermost array, offsetof and the (size_t)&((T*)0)->m idiom) in every static context (file / block scope, '
                        'pointer arrays, struct members, designated) and at run time: byte offset from the object under 7 engine configurations vs gcc '
                        'and vs the LP64 layout computed by the generator; '
+                       'V: aggregate-valued expression trees (calls returning structs/unions of every SysV size class as arguments of other calls, '
+                       'through function pointers, member access on call results incl. members of aggregate type, ?:, comma, assignment values and chains, '
+                       'compound literals, variables) used as printed values, initialisers (also as elements of enclosing initialisers), assignment sources, '
+                       'return values of helpers with aggregate parameters, in loops and conditions: one line per probe under 7 engine configurations vs gcc; '
                        'X: aggregates passed / returned by value between c2m code and a gcc-built shared library in both directions '
                        '(direct calls, callbacks, variadic, function pointers) and c2m to c2m: shape (systematic SysV classification '
                        'boundaries + seeded: arrays over eightbytes, nested aggregates, unions, long double, bit-fields, sizes around 16) x '
